@@ -364,6 +364,33 @@ def _toreal(e):
     return z3.ToReal(e) if e.sort() == z3.IntSort() else e
 
 
+def rdiv(a, b):
+    """a / b for z3 real terms; division by the algebraic constants is rewritten as a multiplication
+    (x/sqrt2 = x*sqrt2/2) so that terms stay polynomial."""
+    if z3.eq(b, SQRT2):
+        return a * SQRT2 / 2
+    if z3.eq(b, SQRT3):
+        return a * SQRT3 / 3
+    return a / b
+
+
+def reduce_consts(e):
+    """polynomial normal form, with sqrt2^2 -> 2 and sqrt3^2 -> 3 applied"""
+    d = z3.simplify(e, som=True, mul_to_power=True)
+    subs = []
+    for c, v in ((SQRT2, 2), (SQRT3, 3)):
+        for p in range(8, 1, -1):
+            subs.append((c ** p, (RealVal_int(v ** (p // 2)) * c) if p % 2 else RealVal_int(v ** (p // 2))))
+    d2 = z3.substitute(d, *subs)
+    if not z3.eq(d, d2):
+        d2 = z3.simplify(d2, som=True, mul_to_power=True)
+    return d2
+
+
+def RealVal_int(n):
+    return z3.RealVal(n)
+
+
 def wrap(e):
     s = e.sort()
     if s == z3.IntSort():
@@ -494,7 +521,7 @@ class SNum:
         b = rv(o)
         if b is None:
             return NotImplemented
-        return SReal(_toreal(s.e) / _toreal(b))
+        return SReal(rdiv(_toreal(s.e), _toreal(b)))
 
     def __rtruediv__(s, o):
         if _is_cplx(o):
@@ -502,7 +529,7 @@ class SNum:
         b = rv(o)
         if b is None:
             return NotImplemented
-        return SReal(_toreal(b) / _toreal(s.e))
+        return SReal(rdiv(_toreal(b), _toreal(s.e)))
 
     def __floordiv__(s, o):
         b = rv(o)
@@ -737,7 +764,7 @@ class SComplex:
         b = rv(o)
         if b is not None:
             b = _toreal(b)
-            return SComplex(s.re / b, s.im / b)
+            return SComplex(rdiv(s.re, b), rdiv(s.im, b))
         o = SComplex.of(o)
         if o is None:
             return NotImplemented
